@@ -56,6 +56,31 @@ def span_quantity(rng, u, span_h):
     return w * u.week + dd * u.day + h * u.hour
 
 
+def used_span(rng, u, tb, span_h, start, pu, e):
+    """the span of a call, written one of the ways a caller may write it; in two calls out of five the same Quantity object has
+    been given to another builder first (a caller defines its period once and passes it around)"""
+    sp = span_quantity(rng, u, span_h)
+    e["span_written"] = f"{float(sp.magnitude)!r} {sp.units}"
+    e["span_used_before_by"] = "none"
+    if rng.random() < 0.4:
+        pre = rng.choice(["random", "linear", "sinus", "daily_fluct", "frequency"])
+        try:
+            if pre == "random":
+                tb.create_random_hourly_usage_df(sp, 1, 10, start, pu)
+            elif pre == "linear":
+                tb.linear_growth_hourly_values(sp, 0, 10, start, pu)
+            elif pre == "sinus":
+                tb.sinusoidal_fluct_hourly_values(sp, 1, 12, start, pu)
+            elif pre == "daily_fluct":
+                tb.daily_fluct_hourly_values(sp, 0.5, 4, start, pu)
+            else:
+                tb.create_hourly_usage_from_frequency(sp, 1, "daily", None, None, start, pu)
+        except Exception:   # noqa: what the first builder does with the span is not this call's subject
+            pass
+        e["span_used_before_by"] = pre
+    return sp
+
+
 def record_calls(ns, rng, n, tid0=0):
     from efootprint.builders import time_builders as tb
     u = ns.u
@@ -103,7 +128,8 @@ def record_calls(ns, rng, n, tid0=0):
             n_h = rng.choice([2, 5, 7, 14, 25, 28, 49, 50, 97])
             v0 = rng.choice([0, 10, 100])
             v1 = v0 + (n_h - 1) * rng.choice([0, 1, 3])
-            df = tb.linear_growth_hourly_values(n_h * u.hour, v0, v1, start, pu).value
+            sp = used_span(rng, u, tb, n_h, start, pu, e)
+            df = tb.linear_growth_hourly_values(sp, v0, v1, start, pu).value
             e.update(fn="linear", n=n_h, v0=v0, v1=v1)
             try:
                 e["idx"], e["vals"] = hours_of(df.index), ints(df["value"].values._data, n_h - 1, "linear")
@@ -112,18 +138,21 @@ def record_calls(ns, rng, n, tid0=0):
                 e["off_lattice_linear"] = True
         elif fn == "sinus":
             n_h, amp, period = rng.choice([30, 50, 31, 53, 100]), rng.choice([1, 5]), rng.choice([6, 12, 24])
-            df = tb.sinusoidal_fluct_hourly_values(n_h * u.hour, amp, period, start, pu).value
+            sp = used_span(rng, u, tb, n_h, start, pu, e)
+            df = tb.sinusoidal_fluct_hourly_values(sp, amp, period, start, pu).value
             e.update(fn="sinus", n=n_h, amplitude=amp, period=period)
             e["idx"], e["vals"] = hours_of(df.index), [int(round(float(x) * 1e6)) for x in df["value"].values._data]
         elif fn == "daily_fluct":
             n_h, scale, mh = rng.choice([30, 72, 31, 97]), rng.choice([0.25, 0.5, 1]), rng.choice([4, 0, 23])
-            df = tb.daily_fluct_hourly_values(n_h * u.hour, scale, mh, start, pu).value
+            sp = used_span(rng, u, tb, n_h, start, pu, e)
+            df = tb.daily_fluct_hourly_values(sp, scale, mh, start, pu).value
             e.update(fn="daily_fluct", n=n_h, scale=int(scale * 1e6), min_hour=mh)
             e["idx"], e["vals"] = hours_of(df.index), [int(round(float(x) * 1e6)) for x in df["value"].values._data]
         else:
-            days, lo, hi = rng.choice([1, 3]), rng.choice([0, 1]), rng.choice([2, 10])
-            df = tb.create_random_hourly_usage_df(days * u.day, lo, hi, start, pu)
-            e.update(fn="random", n=24 * days + 1, lo=lo, hi=hi)
+            span_h, lo, hi = rng.choice([24, 72, 7, 25, 100]), rng.choice([0, 1]), rng.choice([2, 10])
+            sp = used_span(rng, u, tb, span_h, start, pu, e)
+            df = tb.create_random_hourly_usage_df(sp, lo, hi, start, pu)
+            e.update(fn="random", n=span_h + 1, lo=lo, hi=hi)
         e["off_lattice"] = bool(e.pop("off_lattice_linear", False))
         if "idx" not in e:
             try:
@@ -133,6 +162,8 @@ def record_calls(ns, rng, n, tid0=0):
                 e["idx"], e["vals"] = hours_of(df.index), [int(round(float(x))) for x in df["value"].values._data]
                 e["off_lattice"] = True
         e["unit_out"] = str(df.dtypes.iloc[0].units)
+        if "span_written" in e:      # the caller's Quantity after the call(s): same number, same unit?
+            e["span_left"] = f"{float(sp.magnitude)!r} {sp.units}"
         e["ev"] = "Call"
         events.append(e)
     return events
